@@ -338,8 +338,9 @@ func (v *objectBase) Get(key string) Amf0 {
 	v.lock.Lock()
 	defer v.lock.Unlock()
 
-	for _, p := range v.properties {
-		if string(p.key) == key {
+	// For repeated keys(only from decoding), the last one wins.
+	for i := len(v.properties) - 1; i >= 0; i-- {
+		if p := v.properties[i]; string(p.key) == key {
 			return p.value
 		}
 	}
@@ -398,7 +399,12 @@ func (v *objectBase) unmarshal(p []byte, eof bool, maxElems int) (err error) {
 			return oe.WithMessage(err, fmt.Sprintf("unmarshal prop %v", string(u)))
 		}
 
-		v.Set(string(u), a)
+		// Keep all properties in wire order, even if the key is repeated,
+		// so that Size() is exactly the bytes consumed.
+		v.lock.Lock()
+		v.properties = append(v.properties, &property{key: u, value: a})
+		v.lock.Unlock()
+
 		p = p[a.Size():]
 		return nil
 	}
